@@ -23,9 +23,9 @@ func init() {
 		Level: "exploration",
 		Cases: func(t string) int {
 			if t == "thorough" {
-				return 6000
+				return 9000
 			}
-			return 480
+			return 1200
 		},
 		Batch: func(t string) int { return 24 },
 		Floors: []string{"library_checks", "spec_sbbf_checks", "mode_write_small_pages", "mode_write_rowgroup_buffer", "mode_dictionary", "mode_copy_same_config", "mode_reencode_other_codec", "mode_merge_pack", "mode_source_without_filter", "mode_pending_then_rowgroup",
